@@ -121,6 +121,7 @@ private:
     // simulated wall clock (simclock.cpp)
     uint64_t clockJumpSeed{0};
     bool probed64{false};
+    bool keepAll{false};
     bool cmpFeedback{false};  // cfg cmpfb: frames derived from the comparison operands of decode calls (asan variant)
     int derivedLeft{48};
     int encDepth{0};
